@@ -83,6 +83,10 @@ def tablesOk : Bool :=
   siteOk "next_event" "popleft" [("IndexError", .ret)] &&
   -- `change_connection_id()` is called from the migration block without a try: it must not raise
   changeCidRaises == [] &&
+  -- close path of `datagrams_to_send`: `start_packet` is inside the try that catches the builder stop
+  closeStartPacketGuarded &&
+  -- `_alpn_handler`: `_cryptos_initial[version]` only for versions of configuration.supported_versions
+  alpnLookupGuarded &&
   siteOk "datagrams_to_send" "_write_application" [("QuicPacketBuilderStop", .pass)] &&
   siteOk "datagrams_to_send" "_write_handshake" [("QuicPacketBuilderStop", .pass)] &&
   siteOk "datagrams_to_send" "_write_connection_close_frame" [("QuicPacketBuilderStop", .pass)]
@@ -150,6 +154,25 @@ theorem change_connection_id_total (s : St) (migrate : Bool) :
   split
   · exact changeConnectionId_total s
   · exact Or.inl rfl
+
+/-- "arbitrary TLS handshake messages" × every configuration: the compatible-version selection of
+    `_alpn_handler` never looks up `_cryptos_initial` with a version the server is not configured
+    for — for EVERY `supported_versions` list, current version and `available_versions` list of the
+    peer's version_information (unknown, duplicate, unsupported versions included). -/
+theorem alpn_version_selection_total (supported : List Nat) (current : Nat) (available : List Nat) :
+    ∃ r, selectVersion supported current available = .ok r := by
+  have hg : alpnLookupGuarded = true := by decide
+  induction available with
+  | nil => exact ⟨_, rfl⟩
+  | cons v rest ih =>
+    unfold selectVersion
+    split
+    · exact ⟨_, rfl⟩
+    · split
+      · rename_i h
+        simp only [hg, Bool.not_true, Bool.false_or, Bool.and_eq_true] at h
+        exact ⟨_, by rw [if_pos h.1]⟩
+      · exact ih
 
 /-- the same for ANY payload processor satisfying `PayloadOk` — instantiated with the
     byte-level frame handlers in `AQ.Props.C05Frames` -/
@@ -304,6 +327,7 @@ example : (recvLoop (fun s ep cr (fs : List FrameIn) => runFrames s ep cr fs) fa
 #print axioms recv_total
 #print axioms recv_total_generic
 #print axioms change_connection_id_total
+#print axioms alpn_version_selection_total
 #print axioms step_total
 #print axioms after_close_total
 #print axioms fresh_server_garbage_then_send
